@@ -1,0 +1,9 @@
+//go:build verif
+
+package model
+
+// VerifState exposes the selection state of the mixer to the verification harness (/verif, property C04):
+// st (0 = not selected, 1/2 = first/second source selected, 3 = both ended) and the two sticky eof flags.
+func (mr *Mixer) VerifState() (st byte, eof1, eof2 bool) {
+	return mr.st, mr.src1.eof, mr.src2.eof
+}
